@@ -16,13 +16,12 @@ def replay_auto(p):
         d = autodecoder.AutoDecoder(); d._AutoDecoder__previous_success = prev
         try: res = d.decode_message_payload(b"\x01")
         except Exception as ex: return {"violated": True, "detail": f"decode_message_payload raised {ex!r}"}
-        start = prev or 0; exp = None
-        for j in range(N):
-            k = (start + j) % N
-            if k < len(outs) and outs[k] == 0: exp = k; break
+        acc = [k for k in range(N) if k < len(outs) and outs[k] == 0]
         got = None if res is None else res.get("decoder")
         newp = d._AutoDecoder__previous_success
-        bad = got != exp or (exp is not None and newp != exp) or (exp is None and newp != prev)
+        if not acc: bad = got is not None or newp != prev
+        else: bad = got not in acc or newp != got or (prev is not None and prev in acc and got != prev)
+        exp = "None" if not acc else (prev if (prev is not None and prev in acc) else f"one of {acc}")
         name_ok = d.previous_success_decoder == (None if newp is None else orig[newp][0])
         return {"violated": bad or not name_ok, "detail": f"remembered {prev}, outcomes {outs}: decoded by {got} (expected {exp}), remembered afterwards {newp}, name {d.previous_success_decoder}"}
     finally:
